@@ -13,6 +13,14 @@ states of free-running builds are checked against the conclusions below (`runner
 -/
 namespace Dawn.Runner
 
+/-- a one-target graph used by the `example`s that need parameters before the theorems -/
+def diamondLike : Params where
+  deps := fun _ => []
+  known := fun _ => true
+  bodyOk := fun _ => true
+  cap := 1
+  root := 0
+
 /-! ## C04 — each target runs at most once, after its dependencies -/
 
 /-- C04: `LoadTarget` and `Evaluate` are called at most once per label, however many dependents ask. -/
@@ -101,6 +109,12 @@ theorem C09_all_returned {P : Params} {s : State} (hr : Reachable P s) (e : Err)
   rw [this] at hs
   simpa using hs
 
+/-- C09 "a build completes even with a limit of one": with a single slot no reachable unfinished state is stuck
+    (the instance `cap = 1` of `C05_deadlock_free`; progress towards completion is `C05_progress`). -/
+theorem C09_completes_with_limit_one {P : Params} (h1 : P.cap = 1) {s : State} (hr : Reachable P s)
+    (hnd : s.isDone = false) : ∃ t s', step P s t = some s' :=
+  deadlock_free (by omega) hr hnd
+
 /-! ## C05 — builds terminate: cycles are reported, never deadlock -/
 
 /-- C05 / C09 "a build completes even with a limit of one": for every limit ≥ 1, every reachable state in
@@ -108,6 +122,18 @@ theorem C09_all_returned {P : Params} {s : State} (hr : Reachable P s) (e : Err)
 theorem C05_deadlock_free {P : Params} (hcap : 1 ≤ P.cap) {s : State} (hr : Reachable P s)
     (hnd : s.isDone = false) : ∃ t s', step P s t = some s' :=
   deadlock_free hcap hr hnd
+
+/-- the hypothesis `1 ≤ cap` is needed: with no slot at all the first target can never enter the gate -/
+example : ∃ s, Reachable { diamondLike with cap := 0 } s ∧ s.isDone = false ∧
+    ∀ t, step { diamondLike with cap := 0 } s t = none := by
+  refine ⟨_, Reachable.step .main .init rfl, rfl, ?_⟩
+  intro t
+  cases t with
+  | main => rfl
+  | tgt l =>
+    by_cases h : l = 0
+    · subst h; rfl
+    · simp [step, startTarget, init, diamondLike, upd, h]
 
 /-- C05: the only states without an enabled step are the finished ones: `Run` has returned and every target
     goroutine has ended. -/
@@ -174,6 +200,17 @@ theorem C05_cycle_reported {P : Params} (x : Label) (hx : ReachRT P P.root x) (h
       · exact (final_along_path hr.inv4 hnc hp hroot).1
     have := (final_along_path hr.inv4 hnc hcyc hxf).2
     omega
+
+/-- C05, termination: on a finite graph (`nodes` contains the requested target and is closed under dependencies)
+    every step other than a read of the cycle walk strictly decreases the measure `mu` (the number of such steps
+    the threads still have to take). With `C05_deadlock_free` this is termination under weak fairness: a walk
+    read can repeat only while two *other* targets are between publishing and un-publishing a cycle, and each of
+    them is enabled (DESIGN.md §4); fairness itself is an assumption about the Go scheduler. -/
+theorem C05_progress {P : Params} {nodes : List Label} (hroot : P.root ∈ nodes)
+    (hclosed : ∀ l ∈ nodes, ∀ d ∈ P.deps l, d ∈ nodes)
+    {s s' : State} {t : Tid} (hr : Reachable P s) (h : step P s t = some s') :
+    (∃ l d rest, t = .tgt l ∧ s.pc l = some (.walk (d :: rest)) ∧ d ≠ l) ∨ mu P nodes s' < mu P nodes s :=
+  progress hroot hclosed hr h
 
 /-! ## non-vacuity: concrete graphs, schedules and reachable states -/
 
@@ -247,6 +284,12 @@ example : ∀ x, ReachRT diamond diamond.root x → ¬ Path diamond x x := by
     | cons h1 _ ih => exact Nat.lt_trans (edge_lt _ _ h1) ih
   intro x _ h
   exact Nat.lt_irrefl _ (mono x x h)
+
+/-- the diamond's node set is closed: hypotheses of `C05_progress`; its measure starts at 75 and ends at 0 -/
+example : diamond.root ∈ [0, 1, 2, 3] ∧ ∀ l ∈ [0, 1, 2, 3], ∀ d ∈ diamond.deps l, d ∈ [0, 1, 2, 3] := by decide
+
+example : mu diamond [0, 1, 2, 3] (init diamond) = 75 ∧
+    (runSched (step diamond) (init diamond) diamondSched).map (mu diamond [0, 1, 2, 3]) = some 0 := by decide
 
 /-! ## regression witness for D17 (`Run` returned as soon as the requested target had finished) -/
 
